@@ -32,6 +32,11 @@ C("C14", "proof",
   "Trusted: Coq kernel, extraction, driver, the harness parsers of the six artefacts. The JSON file is the carrier of the violation set (its agreement with rule.violations is part of C13's observed runs). Modelled rather than verified: rule_list report functions, report/*.py, junit.py.",
   "Coq proof (unbounded) of the report projections + extracted-model prediction of CLI artefacts", "5/C14")
 
+C("C16", "proof",
+  "write_vhdl_file (stat, open/truncate of the .tmp file with its mode rules, write, close, chmod, atomic replace, the except PermissionError / finally remove structure), create_backup_file and the early returns of apply_rules are modelled over an abstract file system with, at every OS call, a crash, a crash or error in the middle of the write, PermissionError or another OSError. Proved for every schedule, umask and stale .tmp file: the target holds the original or the complete fixed content with the original mode (writeback_atomic, apply_rules_atomic), the .tmp file is removed whenever the process survives and remove works, a completed backup is the original and is never touched again, rejected / misconfigured files are untouched. The extracted model is compared with the real function on the complete single-fault and (fault, fault-in-finally) schedule space per environment (mode x umask x stale tmp), each run a subprocess under an OS-call shim with real SIGKILL; the property is also evaluated on each real outcome alone, and the CLI clauses (mode kept, --backup faithful, rejected and misconfigured files untouched) are run.",
+  "Trusted: Coq kernel, extraction, driver, the OS-call shim (wb_exec.py) and its mapping of calls to model steps (a changed call sequence is itself reported). Assumes POSIX rename atomicity and that a killed process leaves the effects of completed calls intact; torn writes inside one os.replace are outside the model.",
+  "Coq proof (all schedules) + exhaustive fault enumeration against the real function", "5/C16")
+
 NA_REASON = "check not built yet in this round (see DESIGN.md section 10 build order); nothing is claimed for it"
 ALL = ["C%02d" % i for i in range(1, 21)]
 m = dict(version=1, setup_cmd="./bin/setup",
